@@ -112,6 +112,12 @@ func sendRequestToTarget(req *http.Request, httpsDefault bool) (*http.Response, 
 
 	disableTransparentCompression()
 
+	if _, sent := req.Header["User-Agent"]; !sent {
+		// net/http would put its own "Go-http-client/1.1" on a request without User-Agent; an empty
+		// value makes it send none, which is what the client sent.
+		req.Header.Set("User-Agent", "")
+	}
+
 	slog.Debug("Sending request", "url", req.URL, "method", req.Method)
 	resp, err := upstreamClient.Do(req)
 	if err != nil {
